@@ -4,6 +4,7 @@
                     → res=<r1>,<r2>…;wire=<w1>,<w2>…      r = ok|raised|ignored|died ; w = nk<e> | sr<e> | ua:<kind><e> | ir<e>
     tconn <given|none> <presented> <0|1>    key = <namehex>:<blobhex>      → outcome
     sconn <none | key,key…> <presented> <0|1>                              → outcome
+    sconn3 <gss kex negotiated 0|1> <system> <user> <presented> <0|1>      → outcome
     sconn2 <system: none | key,…> <user: none | key,…> <presented> <0|1>   → outcome (system store consulted first)
     name <hosthex> <port>                                                  → hex of the known-hosts name
 -/
@@ -75,6 +76,13 @@ def stepLine (line : String) : String :=
     match pk sy, pk us, parseKey p with
     | some a, some b, some c =>
       if pol == "1" || pol == "0" then showOutcome (sshClientConnect2 a b c (pol == "1")) else "bad-op"
+    | _, _, _ => "bad-op"
+  | ["sconn3", used, sy, us, p, pol] =>
+    let pk := fun (k : String) => if k == "none" then some none else ((k.splitOn ",").mapM parseKey).map some
+    match pk sy, pk us, parseKey p with
+    | some a, some b, some c =>
+      if (pol == "1" || pol == "0") && (used == "1" || used == "0") then
+        showOutcome (sshClientConnectGss (used == "1") a b c (pol == "1")) else "bad-op"
     | _, _, _ => "bad-op"
   | ["name", h, port] =>
     match ofHex? h, port.toNat? with
